@@ -1,5 +1,5 @@
 (* Property C05 — memory zones confine and sequence the code assigned to them. *)
-From BA Require Import Base Bits Expr Layout LayoutProofs Program ProgramProofs.
+From BA Require Import Base Bits Expr Subst Cond CondEval Layout LayoutProofs Data Program ProgramProofs ReaderProofs.
 
 Theorem C05_cursor_bounds : forall z v z',
   set_cursor z v = Ok z' ->
@@ -62,3 +62,21 @@ Print Assumptions C05_create_zone_outside_global.
 Theorem C05_zone_inverted_or_too_wide : forall bits s e n, (s > e \/ e > 2 ^ bits - 1) -> mk_zone bits s e n = Rejected.
 Proof. exact mk_zone_rejects. Qed.
 Print Assumptions C05_zone_inverted_or_too_wide.
+
+(* an included file starts in GLOBAL while its includer resumes in the zone it had selected *)
+Theorem C05_include_zone : forall cfg load_file fid g fs acc t g' fs' acc',
+  item_step cfg load_file fid (g, fs, acc) (IInclude (Some t)) = Ok (g', fs', acc') ->
+  fs' = fs /\ f_zone (file_init t) = GLOBAL.
+Proof.
+  intros cfg load_file fid g fs acc t g' fs' acc' H.
+  destruct (includer_state_preserved cfg load_file fid g fs acc t g' fs' acc' H) as [E _]. split; [exact E | reflexivity].
+Qed.
+Print Assumptions C05_include_zone.
+
+(* a bare origin reverts to GLOBAL, a zone-qualified origin selects that zone *)
+Theorem C05_org_selects_zone : forall cfg load_file fid g fs acc e zn g' fs' acc',
+  item_step cfg load_file fid (g, fs, acc) (IStmt (SOrg e zn)) = Ok (g', fs', acc') -> currently_active (f_stack fs) = true ->
+  f_scope fs' = ScFile fid /\ f_zone fs' = match zn with Some z => z | None => GLOBAL end
+  /\ exists p, acc' = p :: acc /\ p_zone p = match zn with Some z => z | None => GLOBAL end.
+Proof. exact org_resets_scope_and_zone. Qed.
+Print Assumptions C05_org_selects_zone.
